@@ -14,23 +14,40 @@ import (
 // scheduling); the torrent's own workers are still not run: their results are
 // the events.
 //
-//vrt:nospawn (*github.com/cenkalti/rain/v2/torrent.torrent).run ZZRamBalance ZZRamBalance2
-//vrt:nospawn (*github.com/cenkalti/rain/v2/internal/allocator.Allocator).Run ZZRamBalance ZZRamBalance2
-//vrt:nospawn (*github.com/cenkalti/rain/v2/internal/verifier.Verifier).Run ZZRamBalance ZZRamBalance2
-//vrt:nospawn (*github.com/cenkalti/rain/v2/internal/announcer.DHTAnnouncer).Run ZZRamBalance ZZRamBalance2
-//vrt:nospawn (*github.com/cenkalti/rain/v2/internal/announcer.PeriodicalAnnouncer).Run ZZRamBalance ZZRamBalance2
-//vrt:nospawn (*github.com/cenkalti/rain/v2/internal/announcer.StopAnnouncer).Run ZZRamBalance ZZRamBalance2
-//vrt:nospawn (*github.com/cenkalti/rain/v2/internal/peer.Peer).Run ZZRamBalance ZZRamBalance2
-//vrt:nospawn (*github.com/cenkalti/rain/v2/internal/piecewriter.PieceWriter).Run ZZRamBalance ZZRamBalance2
-//vrt:nospawn (*github.com/cenkalti/rain/v2/internal/handshaker/outgoinghandshaker.OutgoingHandshaker).Run ZZRamBalance ZZRamBalance2
-//vrt:nospawn (*github.com/cenkalti/rain/v2/torrent.Session).runOnCompleteCmd ZZRamBalance ZZRamBalance2
+//vrt:nospawn (*github.com/cenkalti/rain/v2/torrent.torrent).run ZZRamBalance1 ZZRamBalance2
+//vrt:nospawn (*github.com/cenkalti/rain/v2/internal/allocator.Allocator).Run ZZRamBalance1 ZZRamBalance2
+//vrt:nospawn (*github.com/cenkalti/rain/v2/internal/verifier.Verifier).Run ZZRamBalance1 ZZRamBalance2
+//vrt:nospawn (*github.com/cenkalti/rain/v2/internal/announcer.DHTAnnouncer).Run ZZRamBalance1 ZZRamBalance2
+//vrt:nospawn (*github.com/cenkalti/rain/v2/internal/announcer.PeriodicalAnnouncer).Run ZZRamBalance1 ZZRamBalance2
+//vrt:nospawn (*github.com/cenkalti/rain/v2/internal/announcer.StopAnnouncer).Run ZZRamBalance1 ZZRamBalance2
+//vrt:nospawn (*github.com/cenkalti/rain/v2/internal/peer.Peer).Run ZZRamBalance1 ZZRamBalance2
+//vrt:nospawn (*github.com/cenkalti/rain/v2/internal/piecewriter.PieceWriter).Run ZZRamBalance1 ZZRamBalance2
+//vrt:nospawn (*github.com/cenkalti/rain/v2/internal/handshaker/outgoinghandshaker.OutgoingHandshaker).Run ZZRamBalance1 ZZRamBalance2
+//vrt:nospawn (*github.com/cenkalti/rain/v2/torrent.Session).runOnCompleteCmd ZZRamBalance1 ZZRamBalance2
 
-// zzDrainGrants plays the event loop's part for grants of the resource manager.
+// The event loop is always ready to take a grant from the resource manager
+// (case data := <-t.ramNotifyC). A forwarding goroutine stands in for that
+// readiness, so that the manager's choice between "grant" and "requester went
+// away" is explored both ways; the harness then handles the grant as the loop
+// does.
+var zzGrants chan *peer.Peer
+
+func zzForwardGrants(t *torrent, quit chan struct{}) {
+	for {
+		select {
+		case pe := <-t.ramNotifyC:
+			zzGrants <- pe
+		case <-quit:
+			return
+		}
+	}
+}
+
 func zzDrainGrants(t *torrent) {
 	for {
 		vrt.Yield()
 		select {
-		case pe := <-t.ramNotifyC:
+		case pe := <-zzGrants:
 			vrt.Cover(true, "queued request granted later")
 			t.startSinglePieceDownloader(pe)
 		default:
@@ -49,18 +66,18 @@ func zzRamInv(t *torrent) {
 
 var zzRamBudget int
 
-// ZZRamBalance: a downloading 3-piece torrent with the real piece-memory
+// ZZRamBalance1: a downloading 3-piece torrent with the real piece-memory
 // manager (budget 1..2 pieces) and two unchoked peers holding every piece, so
-// that requests queue up; every sequence of 3 events - a peer completes its
+// that requests queue up; one event (ZZRamBalance2: every sequence of 2) - a peer completes its
 // piece (hash ok or not), a peer disconnects, a peer chokes, the torrent is
 // stopped - with the manager's grants delivered to the torrent afterwards:
 // reserved memory always equals piece length x running downloads, never
 // exceeds the budget, and is zero once the torrent has stopped.
 //
-//vrt:cover ZZRamBalance queued request granted later
-//vrt:cover ZZRamBalance request queued at the budget
-//vrt:cover ZZRamBalance stopped with a request queued
-func ZZRamBalance() { zzRamBalance(3) }
+//vrt:cover ZZRamBalance1 queued request granted later
+//vrt:cover ZZRamBalance1 request queued at the budget
+//vrt:cover ZZRamBalance1 stopped with a request queued
+func ZZRamBalance1() { zzRamBalance(1) }
 
 // ZZRamBalance2: 2 events.
 //
@@ -74,6 +91,9 @@ func zzRamBalance(steps int) {
 	t := zzNewTorrent(info, nil, sto)
 	zzRamBudget = vrt.Choice("budget_pieces", 2) + 1
 	t.session.ram = resourcemanager.New[*peer.Peer](int64(zzRamBudget) * zzPieceLen)
+	zzGrants = make(chan *peer.Peer, 8)
+	quit := make(chan struct{})
+	go zzForwardGrants(t, quit)
 	zzStartDownloading(t, sto)
 	peers := []*peer.Peer{zzAddPeer(t, 1, false, zzPlainExt), zzAddPeer(t, 2, false, zzPlainExt)}
 	if peers[0] == nil || peers[1] == nil {
@@ -117,5 +137,6 @@ func zzRamBalance(steps int) {
 			vrt.Assert(t.session.ram.Stats().AllocatedSize == 0, "piece memory still reserved by a stopped torrent")
 		}
 	}
+	close(quit)
 	t.session.ram.Close()
 }
